@@ -299,6 +299,16 @@ def part_a(ctx, rng, capdrop):
                             ctx.violation("path", f"path_type-in-parser-disagrees-with-Path/{'accepts' if op.accepted else 'rejects'}/{why_class(mode_s, kind)}", dict(w, parser_outcome=op.brief()))
                         elif op.accepted and (str(op.value.p) != given or op.value.p.absolute != o.value.absolute):
                             ctx.violation("path", "path_type-in-parser-resolves-differently", dict(w, parsed=repr(op.value.p), absolute=op.value.p.absolute))
+                    if acc and spell != "cwd-kwarg" and ctx.counters["mon.path_mode_checks"] % 7 == 0:
+                        # the accepted Path object handed (as an object) to an argument whose path type has another mode:
+                        # that mode decides
+                        m2 = ("dw", "fr", "fc", "dr", "fw", "dx")[ctx.counters["mon.path_mode_checks"] // 7 % 6]
+                        if set(m2) != set(mode_s):
+                            exp2 = model(exp_abs, m2)
+                            o2 = call(_typed_parser(m2).parse_object, {"p": o.value})
+                            ctx.count("mon.path_object_given_to_another_mode")
+                            if exp2 != "unspecified" and (o2.accepted or o2.rejected) and o2.accepted != (exp2 == "accept"):
+                                ctx.violation("path", f"path-object-of-another-mode/{'accepted-although-mode-not-satisfied' if o2.accepted else 'rejected-although-mode-satisfied'}/{m2}", dict(w, other_mode=m2, expected_for_other_mode=exp2, outcome_for_other_mode=o2.brief()))
                     if acc and expd == "reject":
                         ctx.violation("path", f"accepted-although-mode-not-satisfied/{why_class(mode_s, kind)}", w)
                     elif not acc and expd == "accept":
